@@ -138,6 +138,10 @@ def str_lt(a, b):
         return a.encode() < b.encode()
     if isinstance(a, (ZStr, str)) and isinstance(b, (ZStr, str)):
         return zs(a) < zs(b)
+    if isinstance(a, TokStr) and isinstance(b, TokStr):
+        # token strings are ordered by their ids (the replay renders ids zero-padded, so the byte order of
+        # the concrete strings is the id order)
+        return a.id < b.id
     raise Unsupported(f'string order {a!r} vs {b!r}')
 
 
